@@ -3,7 +3,7 @@ from specs import keys, snapbody, restore, gc, misc
 
 LEVEL = 'proof'
 UNITS = [keys.unlock_unit('C06'), keys.instantiate_key_unit('C06'), keys.init_unit('C06'), keys.add_key_inner_unit('C06'), keys.add_key_unit('C06'),
-         snapbody.download_snapshot_unit('C06'), snapbody.decrypt_body_unit('C06'), restore.select_unit('C06'), gc.delete_unit('C06'), gc.clean_unit('C06')] + misc.primitive_units('C06') + snapbody.load_units('C06')
+         snapbody.download_snapshot_unit('C06'), snapbody.decrypt_body_unit('C06'), restore.select_unit('C06'), gc.delete_unit('C06'), gc.clean_unit('C06')] + misc.primitive_units('C06') + snapbody.load_units('C06') + keys.make_key_units('C06')
 BOUNDED = [{'name': 'C06.history', 'script': 'bounded/hist.py', 'timeout': 1200, 'args': {'prop': 'C06'}, 'bound': 'random histories of snapshot/delete/clean by owner, shared-key and independent-key users (and one unencrypted user): <= 10 operations, <= 4 paths per snapshot from 6 overlapping contents, chunks 8..64, 5 (thorough: 40) seeded histories per mode; every remaining snapshot is restored by its owner after each destructive step'}]
 TRUSTED = [
     'vf symbolic executor (/verif/vf): encoding of the Python subset (DESIGN 2.2)',
